@@ -117,16 +117,26 @@ def t_clean_member(lf):
     stored = ast.Return(value=ast.Tuple(elts=[last.targets[0].slice, last.value], ctx=ast.Load()))
     stmts = lb[:-1] + [stored]
 
+    from .c20 import key_test
+    try:
+        table = key_test(lf)[0]  # the module-level name the key test uses (its value is evaluated in c20.py)
+    except KeyError as e:
+        raise Untranslatable("key test: %s" % e)
+
     def hook(n, go):
         r = _base_hook(n, go)
         if r is not None:
             return r
         u = _u(n)
+        # TABLE.<method>(key): one compiled expression (what it matches is extracted in c20.py, `keyPatterns`)
+        if isinstance(n, ast.Call) and isinstance(n.func, ast.Attribute) and n.func.attr in ("search", "match", "fullmatch") \
+                and isinstance(n.func.value, ast.Name) and n.func.value.id == table and len(n.args) == 1 and not n.keywords:
+            return "(sens %s)" % go(n.args[0])
         # any(regex.<method>(key) for regex in COMPILED_KEYS_TO_SANITIZE): the key test (method extracted in c20.py)
         if isinstance(n, ast.Call) and isinstance(n.func, ast.Name) and n.func.id == "any" and len(n.args) == 1 \
                 and isinstance(n.args[0], ast.GeneratorExp):
             g = n.args[0]
-            if len(g.generators) == 1 and _u(g.generators[0].iter) == "COMPILED_KEYS_TO_SANITIZE" and not g.generators[0].ifs \
+            if len(g.generators) == 1 and _u(g.generators[0].iter) == table and not g.generators[0].ifs \
                     and isinstance(g.elt, ast.Call) and isinstance(g.elt.func, ast.Attribute) \
                     and _u(g.elt.func.value) == _u(g.generators[0].target) and g.elt.func.attr in ("search", "match", "fullmatch") \
                     and len(g.elt.args) == 1 and not g.elt.keywords:
@@ -369,6 +379,215 @@ def t_write_event(gl, lf):
             "def write_event_text (urlSub : Str → Str) %s (message : Str) : Str :=\n  %s\n" % (sig, d, sig, t))
 
 
+# --------------------------------------------------------------------------- add_level.log_for_level
+
+
+def t_log_for_level(al):
+    """`log_for_level(self, message, *args, **kwargs)` of add_logging_level: from the call to what reaches `_log`.
+    `try: x = F(...) except: H` is `match F? with | some v => x := v | none => H` (F a partial parameter); the
+    duplicate-warning bookkeeping (`logging_seen_warnings[...]`, `atexit.register`) has no part in the value."""
+    outer = al.func("add_logging_level")
+    fns = [n for n in ast.walk(outer) if isinstance(n, ast.FunctionDef) and n.name == "log_for_level"]
+    if len(fns) != 1:
+        raise Untranslatable("log_for_level")
+    fn = fns[0]
+    if [a.arg for a in fn.args.args] != ["self", "message"] or fn.args.vararg is None or fn.args.vararg.arg != "args" \
+            or fn.args.kwarg is None or fn.args.kwarg.arg != "kwargs":
+        raise Untranslatable("log_for_level signature")
+    body = _nodoc(fn.body)
+    partial = {"orjson.dumps(message)": "(orjsonDumps message)", "json.dumps(message, default=str)": "(jsonDumps message)"}
+
+    def hook(n, go):
+        u = _u(n)
+        if u == "isinstance(message, dict)":
+            return "(Msg.isDict message = true)"
+        if u == "isinstance(message, bytes)":
+            return "(Msg.isBytes message = true)"
+        if u == "str(message)":
+            return "(pyStr message)"
+        if u == "message.decode()":
+            return "(Msg.decode message)"
+        if u == "self.isEnabledFor(level_num)":
+            return "(enabled = true)"
+        if u == "level_num == 30":
+            return "(isWarning = true)"
+        if u == "hash(message)":
+            return "message"  # the table is keyed by the message (through its hash)
+        if u == "hashed in logging_seen_warnings":
+            return "(seen hashed = true)"
+        # the vocabulary of a cap / cut / decoration of the text (see Model/SanitiseEvent.lean, `Msg.len` ...)
+        if u == "isinstance(message, str)":
+            return "(Msg.isText message = true)"
+        if u == "len(message)":
+            return "((Msg.len message : Nat) : Int)"
+        if isinstance(n, ast.Name) and n.id not in ex.bound:
+            try:
+                v = consts.ev(n)
+            except KeyError:
+                v = None
+            if isinstance(v, int) and not isinstance(v, bool):
+                return "(%d : Int)" % v
+        if isinstance(n, ast.Constant) and isinstance(n.value, int) and not isinstance(n.value, bool):
+            return "(%d : Int)" % n.value
+        if isinstance(n, ast.Subscript) and _u(n.value) == "message" and isinstance(n.slice, ast.Slice) and n.slice.step is None \
+                and (n.slice.lower is None) != (n.slice.upper is None):
+            if n.slice.lower is None:
+                return "(Msg.take (%s).toNat message)" % go(n.slice.upper)
+            return "(Msg.drop (%s).toNat message)" % go(n.slice.lower)
+        if isinstance(n, ast.JoinedStr) or (isinstance(n, ast.BinOp) and isinstance(n.op, ast.Add) and (msgish(n.left) or msgish(n.right))):
+            parts = []
+
+            def flat(x):
+                if isinstance(x, ast.BinOp) and isinstance(x.op, ast.Add):
+                    flat(x.left), flat(x.right)
+                elif isinstance(x, ast.JoinedStr):
+                    for v in x.values:
+                        if isinstance(v, ast.FormattedValue):
+                            if v.conversion != -1 or v.format_spec is not None:
+                                raise Untranslatable("f-string field %s" % _u(v))
+                            flat(v.value)
+                        else:
+                            flat(v)
+                elif _str_const(x):
+                    parts.append("Msg.text %s" % chars(x.value))
+                elif msgish(x):
+                    parts.append(go(x))
+                else:
+                    parts.append("Msg.text (toString %s).toList" % go(x))  # an integer written in decimal
+            flat(n)
+            return "(Msg.cat [%s])" % ", ".join(parts)
+        return None
+
+    def msgish(x):
+        return _u(x) == "message" or (isinstance(x, ast.Subscript) and _u(x.value) == "message") or _u(x) in ("str(message)", "message.decode()")
+
+    from .c20 import Static
+    consts = Static(al)
+
+    def stmt_hook(s, rest, k, depth, st):
+        pad = st.ind * depth
+        if isinstance(s, ast.Try):
+            if len(s.body) != 1 or s.orelse or s.finalbody or len(s.handlers) != 1 or s.handlers[0].name is not None:
+                raise Untranslatable("try shape")
+            h = s.handlers[0]
+            if h.type is not None and _u(h.type) not in ("Exception", "BaseException"):
+                raise Untranslatable("except %s" % _u(h.type))
+            a = s.body[0]
+            if not (isinstance(a, ast.Assign) and len(a.targets) == 1 and isinstance(a.targets[0], ast.Name) and _u(a.value) in partial):
+                raise Untranslatable("try body %s" % _u(a)[:50])
+            name = a.targets[0].id
+            saved = st.ex.typestate()
+            st.ex.bound.add("v_try")
+            try:
+                ok = st.block([ast.Assign(targets=[ast.Name(id=name, ctx=ast.Store())], value=ast.Name(id="v_try", ctx=ast.Load()), lineno=0)] + rest, k, depth + 1)
+            finally:
+                st.ex.restore(saved)
+            bad = st.block(list(h.body) + rest, k, depth + 1)
+            return "match %s with\n%s| some v_try =>\n%s%s%s\n%s| none =>\n%s%s%s" % (
+                partial[_u(a.value)], pad, pad, st.ind, ok, pad, pad, st.ind, bad)
+        # bookkeeping of the duplicate-warning table: state that never reaches the record
+        if isinstance(s, (ast.Assign, ast.AugAssign)):
+            t = s.targets[0] if isinstance(s, ast.Assign) else s.target
+            if isinstance(t, ast.Subscript) and _u(t.value) == "logging_seen_warnings" and _u(t.slice) == "hashed":
+                return st.block(rest, k, depth)
+        if isinstance(s, ast.Expr) and isinstance(s.value, ast.Call) and _u(s.value.func) == "atexit.register":
+            return st.block(rest, k, depth)
+        if isinstance(s, ast.Expr) and isinstance(s.value, ast.Call) and _u(s.value.func) == "self._log":
+            c = s.value
+            if [_u(x) for x in c.args[:1]] != ["level_num"] or len(c.args) != 3 or _u(c.args[2]) != "args" \
+                    or [(kw.arg, _u(kw.value)) for kw in c.keywords] != [(None, "kwargs")]:
+                raise Untranslatable("_log call %s" % _u(c)[:60])
+            if rest:
+                raise Untranslatable("statements after _log")
+            return "some %s" % st.ex.go(c.args[1])
+        return None
+
+    ex = pystmt.Expr(hook=hook)
+    ex.bound |= {"message"}
+    term = pystmt.Stmts(ex, ret=lambda v, ex: "none" if v is None else "some %s" % ex.go(v), stmt_hook=stmt_hook).block(body, "none", 1)
+    return ("/-- `log_for_level` (add_level.py): what reaches `Logger._log` for the caller's `message` -/\n"
+            "def log_for_level (orjsonDumps jsonDumps : Msg → Option Msg) (pyStr : Msg → Msg) (enabled isWarning : Bool) (seen : Msg → Bool)\n"
+            "    (message : Msg) : Option Msg :=\n  %s\n" % term)
+
+
+# --------------------------------------------------------------------------- GoogleLogger: the entry points
+
+
+def t_google_entry(gl):
+    """What `GoogleLogger()` (get_logger() under K_SERVICE) puts between the caller and `write_event`:
+    `create_logger(level)` returns `base_logger` iff `level > self.level`, else a function that does nothing;
+    `base_logger(message)` calls `write_event(message=message, system=LOG_NAME, severity=level)`;
+    `__call__(message)` is `self.debug(message)`.  The *argument expressions* are translated: a call site that
+    hands over `str(message)`, a prefix, or bypasses `write_event` no longer gives `w message`."""
+    cls = None
+    for n in (gl.tree.body if gl.tree is not None else []):
+        if isinstance(n, ast.ClassDef) and n.name == "GoogleLogger":
+            cls = n
+    if cls is None:
+        raise Untranslatable("GoogleLogger")
+    cr = [n for n in cls.body if isinstance(n, ast.FunctionDef) and n.name == "create_logger"]
+    ca = [n for n in cls.body if isinstance(n, ast.FunctionDef) and n.name == "__call__"]
+    if len(cr) != 1 or len(ca) != 1 or [a.arg for a in cr[0].args.args] != ["self", "level"] or [a.arg for a in ca[0].args.args] != ["self", "message"]:
+        raise Untranslatable("create_logger / __call__ signature")
+    body = [b for b in _nodoc(cr[0].body) if not isinstance(b, (ast.Import, ast.ImportFrom))]
+    inner = {b.name: b for b in body if isinstance(b, ast.FunctionDef)}
+    rest = [b for b in body if not isinstance(b, ast.FunctionDef)]
+    if set(inner) != {"base_logger", "do_nothing"} or len(rest) != 1 or not isinstance(rest[0], ast.If):
+        raise Untranslatable("create_logger body")
+    for f in inner.values():
+        if [a.arg for a in f.args.args] != ["message"]:
+            raise Untranslatable("inner signature")
+    if [_u(b) for b in _nodoc(inner["do_nothing"].body)] not in (["pass"], ["return"], ["return None"]):
+        raise Untranslatable("do_nothing does something")
+
+    def arg(n):
+        if isinstance(n, ast.Name) and n.id == "message":
+            return "message"
+        if _u(n) == "str(message)":
+            return "(pyStr message)"
+        if isinstance(n, ast.BinOp) and isinstance(n.op, ast.Add):
+            return "(Msg.cat [%s, %s])" % (arg(n.left), arg(n.right))
+        if _str_const(n):
+            return "(Msg.text %s)" % chars(n.value)
+        raise Untranslatable("message argument %s" % _u(n)[:40])
+
+    bl = _nodoc(inner["base_logger"].body)
+    if len(bl) != 1 or not isinstance(bl[0], ast.Return) or not isinstance(bl[0].value, ast.Call):
+        raise Untranslatable("base_logger body")
+    c = bl[0].value
+    if _u(c.func) != "GoogleLogger.write_event":
+        raise Untranslatable("base_logger does not call write_event")
+    kw = {k.arg: k.value for k in c.keywords}
+    pos = list(c.args)
+    msg = kw.pop("message", None) if not pos else pos.pop(0)
+    if msg is None or pos or {k: _u(v) for k, v in kw.items()} != {"system": "LOG_NAME", "severity": "level"}:
+        raise Untranslatable("write_event arguments %s" % _u(c)[:60])
+    base = arg(msg)
+    # which of the two is returned
+    t = rest[0]
+    if [_u(b) for b in t.body] == ["return base_logger"] and [_u(b) for b in t.orelse] == ["return do_nothing"]:
+        neg = False
+    elif [_u(b) for b in t.body] == ["return do_nothing"] and [_u(b) for b in t.orelse] == ["return base_logger"]:
+        neg = True
+    else:
+        raise Untranslatable("create_logger branches")
+    ex = pystmt.Expr(env={"self.level": "selfLevel"})
+    ex.bound |= {"level"}
+    test = ex.go(t.test)
+    cb = _nodoc(ca[0].body)
+    if len(cb) != 1 or not isinstance(cb[0], (ast.Expr, ast.Return)) or not isinstance(cb[0].value, ast.Call) \
+            or _u(cb[0].value.func) != "self.debug" or len(cb[0].value.args) != 1 or cb[0].value.keywords:
+        raise Untranslatable("__call__ body")
+    call = arg(cb[0].value.args[0])
+    return ("/-- `base_logger(message)` of `GoogleLogger.create_logger`: the message `write_event` is called with -/\n"
+            "def base_logger {α : Type} (writeEvent : Msg → α) (pyStr : Msg → Msg) (message : Msg) : α :=\n  writeEvent %s\n\n"
+            "/-- `create_logger(level)` returns `base_logger` (true) or `do_nothing` (false) -/\n"
+            "def logs_at (level selfLevel : Int) : Bool :=\n  %sdecide %s\n\n"
+            "/-- `GoogleLogger.__call__(message)`: the message `self.debug` is called with -/\n"
+            "def call_logger {α : Type} (debug : Msg → α) (pyStr : Msg → Msg) (message : Msg) : α :=\n  debug %s\n"
+            % (base, "!" if neg else "", test, call))
+
+
 def _pinned():
     try:
         return json.load(open(PINNED_FILE))
@@ -380,8 +599,10 @@ def generate(o):
     lf = Src("orso/logging/log_formatter.py")
     gl = Src("orso/logging/google_cloud_logger.py")
     pinned = _pinned()
+    al = Src("orso/logging/add_level.py")
     table = (("clean_member", lambda: t_clean_member(lf)), ("format", lambda: t_format(lf)),
-             ("sanitize_tail", lambda: t_sanitize_tail(lf)), ("write_event", lambda: t_write_event(gl, lf)))
+             ("sanitize_tail", lambda: t_sanitize_tail(lf)), ("write_event", lambda: t_write_event(gl, lf)),
+             ("log_for_level", lambda: t_log_for_level(al)), ("google_entry", lambda: t_google_entry(gl)))
     fresh = {}
     for key, fn in table:
         fresh[key] = o.item("c20.fn." + key, fn, pinned.get(key, "-- %s: not translated\n" % key))
